@@ -216,17 +216,9 @@ theorem stepNormal_inv {s : DSt} {o : Oracle} (hs : DInv s) (ho : OracleOk o) (f
   generalize chain s o f b = d at *
   split
   · -- completion = 0: SILK DTX returned before the state update
-    refine ⟨hs.fs, hs.ch, ?_, hs.maxBw, hs.userBw, hs.forcedMode, hm, hs.prevMode, hb, hsc, ?_, htm, hs.firstPrev, hs.lowdelay⟩
-    · dsimp only
-      split
-      · rename_i h; have := hst h.2; right; omega
-      · exact hforce
-    · dsimp only; omega
-  · refine ⟨hs.fs, hs.ch, ?_, hs.maxBw, hs.userBw, hs.forcedMode, hm, ?_, hb, hsc, ?_, htm, ?_, ?_⟩
-    · dsimp only
-      split
-      · rename_i h; have := hst h.2; right; omega
-      · exact hforce
+    refine ⟨hs.fs, hs.ch, hforce, hs.maxBw, hs.userBw, hs.forcedMode, hm, hs.prevMode, hb, hsc, ?_, htm, hs.firstPrev, hs.lowdelay⟩
+    dsimp only; omega
+  · refine ⟨hs.fs, hs.ch, hforce, hs.maxBw, hs.userBw, hs.forcedMode, hm, ?_, hb, hsc, ?_, htm, ?_, ?_⟩
     · dsimp only
       split <;> right <;> consts <;> omega
     · dsimp only; omega
@@ -265,10 +257,7 @@ theorem stepNormal_monoNow {s : DSt} {o : Oracle} {f b : Int} (hc : s.channels =
   constructor
   · show d.streamChannels ≠ 2 ∨ d.toMono ≠ 0
     omega
-  · show (if _ then (1 : Int) else s.forceChannels) = 1
-    split
-    · rfl
-    · exact hf
+  · exact hf
 
 /-- … and it stays there, whatever happens to the following frames (coded, or turned into DTX
     packets by SILK: since fix 88264869 the DTX return updates `prev_channels` too). -/
@@ -283,17 +272,11 @@ theorem stepNormal_monoNow_keep {s : DSt} {o : Oracle} {f b : Int} (hc : s.chann
   · constructor
     · show d.streamChannels ≠ 2 ∨ d.toMono ≠ 0
       omega
-    · show (if _ then (1 : Int) else s.forceChannels) = 1
-      split
-      · rfl
-      · exact hf
+    · exact hf
   · constructor
     · show d.streamChannels ≠ 2 ∨ d.toMono ≠ 0
       omega
-    · show (if _ then (1 : Int) else s.forceChannels) = 1
-      split
-      · rfl
-      · exact hf
+    · exact hf
 
 /-- After ANY normally coded frame (DTX or not) a forced-mono encoder is in `MonoNow`. -/
 theorem stepNormal_monoNow' {s : DSt} {o : Oracle} {f b : Int} (hc : s.channels = 2) (hf : s.forceChannels = 1) :
@@ -306,16 +289,22 @@ theorem stepNormal_monoNow' {s : DSt} {o : Oracle} {f b : Int} (hc : s.channels 
   · constructor
     · show d.streamChannels ≠ 2 ∨ d.toMono ≠ 0
       omega
-    · show (if _ then (1 : Int) else s.forceChannels) = 1
-      split
-      · rfl
-      · exact hf
+    · exact hf
   · constructor
     · show d.streamChannels ≠ 2 ∨ d.toMono ≠ 0
       omega
-    · show (if _ then (1 : Int) else s.forceChannels) = 1
-      split
-      · rfl
-      · exact hf
+    · exact hf
+
+/-- An encode call changes no setting of the decision state (since fix 34e4f763). -/
+theorem step_settings (s : DSt) (o : Oracle) (f b : Int) :
+    let s' := (step s o f b).1
+    s'.fs = s.fs ∧ s'.channels = s.channels ∧ s'.application = s.application ∧ s'.userBitrate = s.userBitrate ∧
+    s'.useVbr = s.useVbr ∧ s'.forceChannels = s.forceChannels ∧ s'.maxBandwidth = s.maxBandwidth ∧
+    s'.userBandwidth = s.userBandwidth ∧ s'.userForcedMode = s.userForcedMode ∧ s'.lfe = s.lfe := by
+  unfold step stepLowBudget stepNormal
+  split
+  · exact ⟨rfl, rfl, rfl, rfl, rfl, rfl, rfl, rfl, rfl, rfl⟩
+  · simp only []
+    split <;> exact ⟨rfl, rfl, rfl, rfl, rfl, rfl, rfl, rfl, rfl, rfl⟩
 
 end Opus.EncDecide
